@@ -58,6 +58,7 @@ static std::string dump_stats(const FileStatistics& s) {
     return o.str();
 }
 
+static volatile int g_poll = 0;
 static std::string do_readfile(std::istringstream& is) {
     std::string h; is >> h; std::vector<uint8_t> b = unhex(h);
     std::string path = TMPD + "/vblf-h" + std::to_string(getpid()) + ".blf";
@@ -72,6 +73,7 @@ static std::string do_readfile(std::istringstream& is) {
         while (true) {
             if (PACE_US > 0 && (n % 3) == 1) usleep(useconds_t(PACE_US));   // consumer pacing (native stress runs)
             ObjectHeaderBase* o = f.read();
+            g_poll += int(f.good()) + int(f.eof()) + int(f.is_open());   // an application polls the state after every call
             if (!o) break;
             std::string cn = class_of(o); const ClassReflect* c = find_class(cn);
             if (!HEAP) objs += " | " + cn + " " + (c ? dump_obj(c, o) : std::string("?"));
@@ -115,6 +117,7 @@ static std::string do_writefile(std::istringstream& is) {
         for (; i < toks.size() && toks[i] != ";;"; i++) { size_t e = toks[i].find('='); if (e == std::string::npos) continue; std::vector<uint8_t> b = unhex(toks[i].substr(e + 1)); c->set(o, atoi(toks[i].substr(0, e).c_str()), b.data(), b.size()); }
         if (PACE_US > 0 && (i % 5) == 2) usleep(useconds_t(PACE_US));   // producer pacing
         f.write(o);
+        g_poll += int(f.good()) + int(f.eof()) + int(f.is_open());   // (in a write session the workers change that state concurrently)
     }
     f.close();
     std::ifstream in(path, std::ios::binary); std::vector<uint8_t> b((std::istreambuf_iterator<char>(in)), std::istreambuf_iterator<char>());
@@ -169,6 +172,7 @@ static std::string do_api(std::istringstream& is) {
             else if (op == "r") { ObjectHeaderBase* o = f->read(); if (o) { delete o; obs("r", " obj"); } else obs("r", " null"); }
             else if (op == "w") { auto* a = new AppText; a->text = "history"; f->write(a); obs("w", ""); }
             else if (op == "c") { f->close(); obs("c", ""); }
+            else if (op == "z") { usleep(150000); }     // let the workers run into whatever they block on (no observation)
             else if (op == "d") { delete f; f = nullptr; break; }
         }
         if (f) delete f;
